@@ -10,6 +10,8 @@ pub mod acc;
 pub mod ivec;
 pub mod mt;
 pub mod conv_gen;
+pub mod safe_gen;
+pub mod safety;
 pub mod swz_gen;
 
 use serde_json::{json, Value};
